@@ -101,7 +101,7 @@ for _na in range(2, 6):
                            f"value), force={_force}, {'two tracked rows (order)' if _pair else 'one tracked row (multiplicity, range, rejection)'} "
                            f"with symbolic index value and source partition",
                     functions=["dask_expr._repartition.RepartitionDivisions._layer"],
-                    api_replay="api_rd2" if _pair else "api_rd1",
+                    api_replay=("api_rd2" if _pair else "api_rd1") + ("_f" if _force else ""),
                 ))
 
 
@@ -111,6 +111,14 @@ def api_rd1(a, b, v, p, force=False):
 
 def api_rd2(a, b, v1, p1, v2, p2, force=False):
     return api_rd(a, b, v1, p1, v2, p2, force)
+
+
+def api_rd1_f(a, b, v, p):
+    return api_rd(a, b, v, p, v, p, True)
+
+
+def api_rd2_f(a, b, v1, p1, v2, p2):
+    return api_rd(a, b, v1, p1, v2, p2, True)
 
 
 def api_rd(a, b, v1, p1, v2, p2, force):
